@@ -76,6 +76,17 @@ func TestVerifC03ServerAPI(t *testing.T) {
 				}})
 				b.ids = append(b.ids, id)
 			}
+			// half of the slices go through the public WithMiddleware(s) helpers (pass-through middlewares):
+			// every wrapped route must still run ITS OWN handler
+			switch rc.Intn(4) {
+			case 0:
+				b.routes = WithMiddleware(func(next http.HandlerFunc) http.HandlerFunc { return next }, b.routes...)
+			case 1:
+				pass := func(next http.HandlerFunc) http.HandlerFunc {
+					return func(w http.ResponseWriter, rq *http.Request) { next(w, rq) }
+				}
+				b.routes = WithMiddlewares([]Middleware{pass, pass}, b.routes...)
+			}
 			bases = append(bases, b)
 		}
 		if !m.Only(idx) {
@@ -157,7 +168,7 @@ func TestVerifC03ServerAPI(t *testing.T) {
 		paths = append(paths, "/", "/v1", "/v2/v1/s0", "/zz/s0/a")
 		v0 := m.ViolCount()
 		for _, p := range paths {
-			for _, method := range []string{"GET", "POST", "PUT", "DELETE"} {
+			for _, method := range []string{"GET", "POST", "PUT", "DELETE", "TRACE", "get"} {
 				if m.ViolCount() > v0 {
 					break
 				}
